@@ -1,6 +1,7 @@
 import GS.Ops
 import GS.OpsBf
+import GS.OpsPb
 /-! Union of all op tables (one per model file group). -/
 namespace GS.OpsAll
-def table : List (String × (List String → Option String)) := GS.Ops.table ++ GS.OpsBf.table
+def table : List (String × (List String → Option String)) := GS.Ops.table ++ GS.OpsBf.table ++ GS.OpsPb.table
 end GS.OpsAll
